@@ -3,6 +3,7 @@ package checks
 import (
 	"context"
 	"fmt"
+	"runtime/debug"
 	"strings"
 	"time"
 
@@ -133,6 +134,14 @@ func garblePath(t *sim.Tape, p *sdcpb.Path) (*sdcpb.Path, string) {
 	}
 }
 
+func trimStackC20() string {
+	lines := strings.Split(string(debug.Stack()), "\n")
+	if len(lines) > 30 {
+		lines = lines[:30]
+	}
+	return strings.Join(lines, "\n")
+}
+
 func runC20(rc *sim.RunCtx) {
 	t := rc.T
 	h, err := NewHist(rc, HistOpts{Profiles: []string{"core", "adversarial", "choice"}, MinTx: 1, MaxTx: 3, Oracles: map[string]bool{}})
@@ -156,7 +165,7 @@ func runC20(rc *sim.RunCtx) {
 		s := uni[t.Choose(len(uni))]
 		lex := s.Lex[t.Choose(len(s.Lex))]
 		base := &sdcpb.Update{Path: s.Path.ToSdcpb(), Value: MkTV(s.Node, lex, "typed")}
-		kind := t.Weighted([]int{6, 3, 3, 2})
+		kind := t.Weighted([]int{6, 3, 3, 2, 2, 1})
 		start := time.Now()
 		desc := ""
 		var callErr error
@@ -226,6 +235,80 @@ func runC20(rc *sim.RunCtx) {
 			rc.Probe("garble-notification")
 			rc.Logf("CALL %s", desc)
 			c20sync(rc, w, n)
+		case 4: // garbled Subscribe request (streaming handler: must return at the latest shortly after the client goes away)
+			req := &sdcpb.SubscribeRequest{Name: []string{world.DSName, "", "nosuchds"}[t.Weighted([]int{6, 1, 1})]}
+			nsub := t.Choose(4)
+			for j := 0; j < nsub; j++ {
+				p, _ := garblePath(t, base.Path)
+				sub := &sdcpb.Subscription{Path: []*sdcpb.Path{p}, SampleInterval: []uint64{uint64(time.Second), 0, 1, 1 << 62}[t.Choose(4)],
+					DataType: []sdcpb.DataType{sdcpb.DataType_CONFIG, sdcpb.DataType_ALL, sdcpb.DataType_STATE, sdcpb.DataType(7)}[t.Choose(4)]}
+				// (a repeated message field never holds nil after protobuf decoding: the empty message is what the wire can carry)
+				switch t.Choose(6) {
+				case 0:
+					sub.Path = nil
+				case 1:
+					sub.Path = append(sub.Path, &sdcpb.Path{})
+				case 2:
+					sub = &sdcpb.Subscription{}
+				}
+				req.Subscription = append(req.Subscription, sub)
+			}
+			desc = fmt.Sprintf("Subscribe subs=%d on %s", nsub, s.Path)
+			rc.Probe("garble-subscribe")
+			rc.Logf("CALL %s", desc)
+			st := world.NewFakeStream[*sdcpb.SubscribeResponse](w.Ctx, "subscribe", world.StreamPlan{FailAt: -1, StallAt: -1, CancelDelay: -1}, nil)
+			done := make(chan error, 1)
+			go func() {
+				defer func() {
+					if r := recover(); r != nil {
+						rc.Report(sim.Item{Prop: "C20", Clause: "C20.panic", Detail: fmt.Sprintf("panic in Subscribe: %v\n%s", r, trimStackC20()), Fields: map[string]string{"where": "subscribe-handler", "panic": fmt.Sprint(r)}})
+						done <- fmt.Errorf("panic")
+					}
+				}()
+				done <- w.Srv.Subscribe(req, st)
+			}()
+			time.Sleep(3 * time.Second)
+			st.Cancel()
+			select {
+			case callErr = <-done:
+			case <-time.After(60 * time.Second):
+				rc.Report(sim.Item{Prop: "C20", Clause: "C20.hang", Fields: map[string]string{"call": desc}, Detail: "Subscribe did not return within 60 simulated seconds after the client went away"})
+				return
+			}
+			start = time.Now() // the 3 s the client stayed are not the handler's
+		case 5: // Confirm / Cancel / WatchDeviations with odd names and ids
+			rc.Probe("garble-confirm-cancel")
+			id := []string{"", "g0", "nosuch", strings.Repeat("x", 5000)}[t.Choose(4)]
+			ds := []string{world.DSName, "", "nosuchds"}[t.Choose(3)]
+			desc = fmt.Sprintf("Confirm/Cancel ds=%q id-len=%d", ds, len(id))
+			rc.Logf("CALL %s", desc)
+			if t.Bool(1, 2) {
+				_, callErr = w.Srv.TransactionConfirm(w.Ctx, &sdcpb.TransactionConfirmRequest{DatastoreName: ds, TransactionId: id})
+			} else {
+				_, callErr = w.Srv.TransactionCancel(w.Ctx, &sdcpb.TransactionCancelRequest{DatastoreName: ds, TransactionId: id})
+			}
+			if t.Bool(1, 3) {
+				st := world.NewFakeStream[*sdcpb.WatchDeviationResponse](w.Ctx, "dev", world.StreamPlan{FailAt: -1, StallAt: -1, CancelDelay: -1}, nil) // no peer in the context
+				done := make(chan error, 1)
+				go func() {
+					defer func() {
+						if r := recover(); r != nil {
+							rc.Report(sim.Item{Prop: "C20", Clause: "C20.panic", Detail: fmt.Sprintf("panic in WatchDeviations: %v\n%s", r, trimStackC20()), Fields: map[string]string{"where": "watchdeviations-handler", "panic": fmt.Sprint(r)}})
+							done <- fmt.Errorf("panic")
+						}
+					}()
+					done <- w.Srv.WatchDeviations(&sdcpb.WatchDeviationRequest{Name: []string{ds, ""}[:1+t.Choose(2)]}, st)
+				}()
+				time.Sleep(time.Second)
+				st.Cancel()
+				select {
+				case <-done:
+				case <-time.After(60 * time.Second):
+					rc.Report(sim.Item{Prop: "C20", Clause: "C20.hang", Fields: map[string]string{"call": "WatchDeviations"}, Detail: "WatchDeviations did not return within 60 simulated seconds after the client went away"})
+					return
+				}
+				start = time.Now()
+			}
 		case 3: // garbled NETCONF get-config reply through the real ncTarget.Get / XML adapter
 			desc = "netconf get-config reply"
 			rc.Probe("garble-netconf-reply")
@@ -296,7 +379,7 @@ func init() {
 		Real: append(append([]string{}, realCore...), "pkg/server handlers, pkg/utils converter, pkg/datastore/target/nc.go Get + netconf XML2sdcpbConfigAdapter"), Stub: append(append([]string{}, stubCore...), "netconf.Driver (serves the garbled reply)"),
 		Assume:           []string{"byte-level parser fuzzing of ParsePath/JSON/XML on arbitrary strings is out of scope (a fuzzing target, not a simulation target); messages are well-formed at the protobuf/XML level"},
 		CrashIsViolation: true, HangIsViolation: true,
-		RequiredProbes: []string{"garble-set", "garble-getdata", "garble-notification", "garble-netconf-reply"},
+		RequiredProbes: []string{"garble-set", "garble-getdata", "garble-notification", "garble-netconf-reply", "garble-subscribe", "garble-confirm-cancel"},
 		QuickSeconds:   30, ThoroughSeconds: 480,
 	})
 }
